@@ -13,7 +13,10 @@
             the nonlinear rate VM_src_dst / (KM_src_dst + A_src(t)), kind 3 = a rate
             that is a SUM of two terms (KA_src_dst + KB_src_dst, (Q1_src + Q2_src)/V_src
             towards the output); in matrix entries and equations a sum contributes its
-            two parts 31 and 32 as separate terms
+            two parts 31 and 32 as separate terms; kind 4 = a SECOND-ORDER rate, the rate
+            itself contains an amount (K2_src_dst * A_dst(t) between compartments --
+            binding --, KD_src * A_src(t) towards the output -- dimerisation), so the
+            flow term rate * A_src is quadratic in the amounts
      doses  per compartment the STORED tuple of doses (1 = Bolus admid 1,
             2 = Infusion admid 2, 3 = Bolus admid 2); Compartment.doses is the view
             with infusions first
@@ -38,6 +41,9 @@ CONSTANTS Pool,        \* set of compartment ids that may be used
           MaxOps,      \* number of builder operations explored after the seed system
           Thin, ThinRes, FullDepth,   \* seed systems and operations beyond FullDepth: only hash % Thin = ThinRes
           SeedThin, SeedThinFrom,   \* seed flows of systems with >= SeedThinFrom compartments are thinned by SeedThin
+          SeedAscending,   \* BOOLEAN: seed compartments are added in ascending id order only (one node order per system)
+          SeedInputs,      \* BOOLEAN: a seed compartment may be created with a zero-order input
+          EmitConfluence,  \* BOOLEAN: every state with a confluence outside the dosing-reachable part is emitted
           SampleMod, SampleRes        \* emission sampling
 
 VARIABLES ins, flow, doses, lag, bio, inp, hist, n, h
@@ -88,7 +94,8 @@ SeedLog(op) == hist' = Append(hist, op) /\ n' = 0 /\ h' = Mix(h, Code(op))
 SeedAddCompartment(a, d, c) ==
     /\ n = 0 /\ flow = {} /\ a \in Pool \ Comps /\ Len(ins) < MaxComps
     /\ d = 1 => \A x \in Comps : doses[x] = <<>>
-    /\ c = 1 => \A x \in Comps : inp[x] = 0
+    /\ c = 1 => (SeedInputs /\ \A x \in Comps : inp[x] = 0)
+    /\ SeedAscending => \A x \in Comps : x < a
     /\ ins' = Append(ins, a)
     /\ doses' = Set6(doses, a, IF d = 0 THEN <<>> ELSE <<d>>)
     /\ inp' = Set6(inp, a, c)
@@ -248,7 +255,7 @@ OrdersAfterSubs == {OrderOf(SelectSeq(ins, LAMBDA a : a \notin SubsChanged) \o p
 \* input of compartment c is the term <<1, c, c, 0, 0>>
 Neg(T) == {<<0 - t[1], t[2], t[3], t[4]>> : t \in T}
 Parts(k) == IF k = 3 THEN {31, 32} ELSE {k}
-Expanded(F) == {<<f[1], f[2], p>> : <<f, p>> \in {x \in F \X {1, 2, 31, 32} : x[2] \in Parts(x[1][3])}}
+Expanded(F) == {<<f[1], f[2], p>> : <<f, p>> \in {x \in F \X {1, 2, 4, 31, 32} : x[2] \in Parts(x[1][3])}}
 RateT(a, b) == IF Rate(a, b) = 0 THEN {} ELSE {<<1, a, b, p>> : p \in Parts(Rate(a, b))}
 \* compartmental_matrix, transcribed by position: f[j, i] = rate(i -> j); f[i, i] = -(sum of rates out of i) - outrate
 MatrixOf(o) == [r \in 1..Len(o) |-> [c \in 1..Len(o) |->
@@ -333,5 +340,10 @@ Case == LET o == Order
                                   kind |-> t[4], amount |-> Name[t[5]]] : t \in {x \in EqsRef(a) : x[4] # 0}},
                       input |-> inp[a]] : a \in Comps}]
 Sampled == ((h * 13 + Len(hist)) % 9973) % SampleMod = SampleRes
-EmitCase == Sampled => PrintT(<<"CASE", ToJson(Case)>>)
+\* two compartments outside the part reachable from the first dosing compartment flow into a common third one that
+\* is outside it as well (SRC1 -> POOL <- SRC2): the situation in which _order_compartments must not place POOL twice
+Confluence == LET ds == DosingOf(ins) IN ds # <<>> /\
+                 LET far == Comps \ SeqSet(Bfs(ds[1]))
+                 IN \E c \in far : Cardinality({a \in far : Rate(a, c) # 0}) >= 2
+EmitCase == (Sampled \/ (EmitConfluence /\ Confluence)) => PrintT(<<"CASE", ToJson(Case)>>)
 =============================================================================
